@@ -1,85 +1,1160 @@
+// h01: correspondence harness for C01 (environment state machine, its callers, the transition
+// mutex).  Drives the real core in-process (internal/simcore): RpcServer.ControlEnvironment,
+// RpcServer.DestroyEnvironment, Manager.TeardownEnvironment, the ODC / END_OF_STREAM internal
+// callers and Environment.TryTransition on environments whose workflow has one direct-control
+// task and a critical verif.Probe call role at every moment of every transition.  Observes probe
+// starts, task commands, the FSM state at every such instant, the Ev_EnvironmentEvent stream and
+// the replies, and writes (input, observed) pairs as Coq terms of type c01_case (EnvFsm.v).
+//
+//	h01 -gen coq/gen/Gen_EnvCan.v     exhaustive Can / fire tables of a real Environment's FSM
 package main
 
 import (
+	"context"
+	"encoding/json"
+	"errors"
 	"fmt"
 	"os"
+	"runtime/pprof"
+	"sort"
+	"strings"
+	"sync/atomic"
 	"time"
+
+	"github.com/AliceO2Group/Control/common/utils/uid"
+	"github.com/AliceO2Group/Control/core/environment"
+	odcevent "github.com/AliceO2Group/Control/core/integration/odc/event"
+	"github.com/sirupsen/logrus"
+
+	"verif/harness/internal/gen"
 )
 
-func dump(items []item) {
+// ---------------------------------------------------------------- Coq printers
+
+func stTerm(s string) string {
+	for _, n := range stateNames {
+		if n == s {
+			return "s" + s
+		}
+	}
+	fmt.Fprintf(os.Stderr, "h01: state name %q is not known to the model\n", s)
+	os.Exit(4)
+	return ""
+}
+
+func evTerm(s string) string {
+	for _, n := range eventNames {
+		if n == s {
+			return "e" + s
+		}
+	}
+	fmt.Fprintf(os.Stderr, "h01: event name %q is not known to the model\n", s)
+	os.Exit(4)
+	return ""
+}
+
+func opTerm(op int32) string {
+	if op >= 0 && int(op) < len(optypeNames) {
+		return "o" + optypeNames[op]
+	}
+	return "oOTHER"
+}
+
+func momentTerm(trigger string) string {
+	switch {
+	case trigger == "DESTROY":
+		return "MDestroy"
+	case strings.HasPrefix(trigger, "before_"):
+		return "(MBefore " + evTerm(trigger[7:]) + ")"
+	case strings.HasPrefix(trigger, "after_"):
+		return "(MAfter " + evTerm(trigger[6:]) + ")"
+	case strings.HasPrefix(trigger, "leave_"):
+		return "(MLeave " + stTerm(trigger[6:]) + ")"
+	case strings.HasPrefix(trigger, "enter_"):
+		return "(MEnter " + stTerm(trigger[6:]) + ")"
+	}
+	fmt.Fprintf(os.Stderr, "h01: trigger %q is not known to the model\n", trigger)
+	os.Exit(4)
+	return ""
+}
+
+type faults struct {
+	Hooks  []string `json:"hooks,omitempty"`  // triggers whose probe fails
+	Bodies []string `json:"bodies,omitempty"` // environment events whose task command fails
+}
+
+func oracleTerm(f faults) string {
+	var hs, bs []string
+	for _, h := range f.Hooks {
+		hs = append(hs, momentTerm(h))
+	}
+	for _, b := range f.Bodies {
+		bs = append(bs, evTerm(b))
+	}
+	return fmt.Sprintf("(mkOracle %s %s false false)", gen.List(hs), gen.List(bs))
+}
+
+type reqIn struct {
+	Kind  string `json:"kind"` // control | destroy | teardown | odc | stoprun
+	Op    int32  `json:"op,omitempty"`
+	Force bool   `json:"force,omitempty"`
+	Allow bool   `json:"allow,omitempty"`
+	Keep  bool   `json:"keep,omitempty"`
+}
+
+func reqTerm(r reqIn) string {
+	switch r.Kind {
+	case "control":
+		return "(QControl " + opTerm(r.Op) + ")"
+	case "destroy":
+		return fmt.Sprintf("(QDestroy %s %s %s)", gen.Bool(r.Force), gen.Bool(r.Allow), gen.Bool(r.Keep))
+	case "teardown":
+		return "(QTeardown " + gen.Bool(r.Force) + ")"
+	case "odc":
+		return "QOdc"
+	case "stoprun":
+		return "QStopRun"
+	}
+	panic("unknown request kind " + r.Kind)
+}
+
+func codeOf(errClass string) uint64 {
+	switch errClass {
+	case "":
+		return 0
+	case "NotFound":
+		return 1
+	case "InvalidArgument":
+		return 2
+	case "Aborted":
+		return 3
+	case "Internal":
+		return 4
+	}
+	return 5
+}
+
+func optSt(has bool, s string) string {
+	if !has {
+		return "None"
+	}
+	return "(Some " + stTerm(s) + ")"
+}
+
+var openMsgs = map[string]bool{"transition starting": true, "workflow teardown started": true}
+var closeMsgs = map[string]bool{"transition completed successfully": true, "transition error": true,
+	"transition impossible": true, "environment teardown complete": true, "environment teardown finished with error": true}
+
+func evKind(msg string) int {
+	if openMsgs[msg] {
+		return 1
+	}
+	if closeMsgs[msg] {
+		return 2
+	}
+	if msg == "reply" {
+		return 3 // harness-side record: the state a reply reported, at the instant the call returned
+	}
+	return 0
+}
+
+// canonical trace of a log segment started in state prev: H / B items with a SetSt wherever the
+// sampled FSM state differs from the previous sample; final = state after the segment.
+func traceTerms(prev string, items []item, final string) ([]string, []string) {
+	var tr, plain []string
+	lastB := ""
+	cur := prev
+	emit := func(t, p string) { tr = append(tr, t); plain = append(plain, p) }
 	for _, it := range items {
-		fmt.Printf("   %s %-28s st=%-10s rep=%-10s tr=%-14s step=%-22s err=%v\n", it.Kind, it.Name, it.St, it.RepSt, it.Trans, it.Step, it.Err)
+		if it.St != "" && it.St != cur {
+			cur = it.St
+			emit("SetSt "+stTerm(cur), "S:"+cur)
+			lastB = ""
+		}
+		switch it.Kind {
+		case "H":
+			emit("Hook "+momentTerm(it.Name), "H:"+it.Name)
+			lastB = ""
+		case "B":
+			if it.Name != lastB { // one item per body, whatever the number of tasks commanded
+				emit("Body "+evTerm(it.Name), "B:"+it.Name)
+			}
+			lastB = it.Name
+		}
+	}
+	if final != cur {
+		emit("SetSt "+stTerm(final), "S:"+final)
+	}
+	return tr, plain
+}
+
+func oevTerms(items []item) []string {
+	var out []string
+	for _, it := range items {
+		if it.Kind != "E" {
+			continue
+		}
+		st := it.St
+		if st == "" {
+			st = it.RepSt
+		}
+		out = append(out, fmt.Sprintf("(%d, %s, %s)", evKind(it.Name), stTerm(st), stTerm(it.RepSt)))
+	}
+	return out
+}
+
+// ---------------------------------------------------------------- running one request
+
+func (w *world) setFaults(f faults, on bool) {
+	for _, h := range f.Hooks {
+		w.rec.SetFail(h, on)
+	}
+	if on {
+		w.setFailBody(f.Bodies)
+	} else {
+		w.setFailBody(nil)
 	}
 }
 
-func explore() {
-	w, err := newWorld("x")
+func (w *world) taskIdOf(env *environment.Environment) string {
+	id := env.Id().String()
+	for _, t := range w.sim.Taskman.VerifRoster() {
+		if t.EnvId == id {
+			return t.TaskId
+		}
+	}
+	return ""
+}
+
+// quiesce waits until no new item has been logged for d and every opened transition bracket of
+// the log has been closed.  (CurrentTransition() cannot be used: it keeps the name of a cancelled
+// transition, and "DESTROY" after a teardown.)
+func (w *world) quiesce(from int, d time.Duration) {
+	last := w.mark()
+	t0 := time.Now()
+	for {
+		time.Sleep(d)
+		n := w.mark()
+		if n == last {
+			depth := 0
+			for _, it := range w.since(from) {
+				if it.Kind == "E" {
+					switch evKind(it.Name) {
+					case 1:
+						depth++
+					case 2:
+						depth--
+					}
+				}
+			}
+			if depth == 0 {
+				return
+			}
+		}
+		last = n
+		if time.Since(t0) > 5*time.Second {
+			fmt.Fprintln(os.Stderr, "h01: internal request did not come to rest")
+			return
+		}
+	}
+}
+
+func (w *world) issue(env *environment.Environment, r reqIn, user string) reply {
+	id := env.Id()
+	switch r.Kind {
+	case "control":
+		return w.control(id.String(), r.Op, user)
+	case "destroy":
+		return w.destroy(id.String(), r.Force, r.Allow, r.Keep, user)
+	case "teardown":
+		return w.teardown(id, r.Force)
+	case "odc":
+		ev := &odcevent.OdcPartitionStateChangeEvent{EnvironmentId: id, State: "ERROR"}
+		ev.ServiceName = "ODC"
+		from := w.mark()
+		w.sim.Envman.NotifyIntegratedServiceEvent(ev)
+		w.quiesce(from, 12*time.Millisecond)
+		return reply{}
+	case "stoprun":
+		from := w.mark()
+		if tid := w.taskIdOf(env); tid != "" {
+			w.sim.DeviceEvent(tid, "END_OF_STREAM", nil)
+		}
+		w.quiesce(from, 12*time.Millisecond)
+		return reply{}
+	}
+	panic("unknown request kind")
+}
+
+type stepIn struct {
+	Req    reqIn  `json:"req"`
+	Faults faults `json:"faults"`
+}
+
+type stepObs struct {
+	Code   uint64   `json:"code"`
+	Reply  string   `json:"reply,omitempty"`
+	Listed bool     `json:"listed"`
+	Final  string   `json:"final"`
+	Trace  []string `json:"trace"`
+}
+
+// one sequential request: returns the Coq term (req, oracle, robs, events) and the observation
+func (w *world) runStep(env *environment.Environment, st stepIn) (string, stepObs) {
+	prev := env.Sm.Current()
+	w.setFaults(st.Faults, true)
+	n := w.mark()
+	r := w.issue(env, st.Req, "seq")
+	items := w.since(n)
+	w.setFaults(st.Faults, false)
+	final := env.Sm.Current()
+	listed := w.listed(env.Id())
+	tr, plain := traceTerms(prev, items, final)
+	ob := stepObs{Code: codeOf(r.Err), Listed: listed, Final: final, Trace: plain}
+	if r.HasReply {
+		ob.Reply = r.State
+	}
+	robs := fmt.Sprintf("(mkRobs %d %s %s %s %s)", ob.Code, optSt(r.HasReply, r.State), gen.Bool(listed), stTerm(final), gen.List(tr))
+	term := fmt.Sprintf("(%s, %s, %s, %s)", reqTerm(st.Req), oracleTerm(st.Faults), robs, gen.List(oevTerms(items)))
+	return term, ob
+}
+
+// ---------------------------------------------------------------- CSeq
+
+type seqIn struct {
+	Create string   `json:"create"` // "hook": listed in STANDBY by VerifC01NewListed; "api": CreateEnvironment (CONFIGURED)
+	Steps  []stepIn `json:"steps"`
+}
+
+func (w *world) newEnv(create string) (*environment.Environment, error) {
+	if os.Getenv("H01_TIMING") != "" {
+		t0 := time.Now()
+		defer func() { fmt.Fprintf(os.Stderr, "newEnv %s %s\n", create, time.Since(t0)) }()
+	}
+	if create == "api" {
+		id, err := w.sim.Envman.CreateEnvironment(wfName, map[string]string{}, false, uid.New(), false)
+		if err != nil {
+			return nil, err
+		}
+		return w.sim.Envman.Environment(id)
+	}
+	return w.newListed()
+}
+
+func (w *world) caseSeq(in seqIn) gen.Case {
+	w.setCur(nil)
+	env, err := w.newEnv(in.Create)
 	if err != nil {
-		fmt.Println("ERR", err)
+		panic(err)
+	}
+	w.setCur(env)
+	st0 := env.Sm.Current()
+	var terms []string
+	var obs []stepObs
+	for _, st := range in.Steps {
+		t, o := w.runStep(env, st)
+		terms = append(terms, t)
+		obs = append(obs, o)
+	}
+	w.setCur(nil)
+	w.dispose(env)
+	return gen.Case{Term: fmt.Sprintf("CSeq %s %s", stTerm(st0), gen.List(terms)), Kind: "seq-" + in.Create, Input: in, Obs: obs}
+}
+
+// the operation that is legal in a state, if any
+var legalOps = map[string][]int32{"STANDBY": {6}, "DEPLOYED": {3}, "CONFIGURED": {1, 4}, "RUNNING": {2}}
+var opEvent = map[int32]string{1: "START_ACTIVITY", 2: "STOP_ACTIVITY", 3: "CONFIGURE", 4: "RESET", 6: "DEPLOY"}
+var evDst = map[string]string{"DEPLOY": "DEPLOYED", "CONFIGURE": "CONFIGURED", "START_ACTIVITY": "RUNNING",
+	"STOP_ACTIVITY": "CONFIGURED", "RESET": "DEPLOYED", "GO_ERROR": "ERROR"}
+
+// fault points that can matter for a request issued in state s (aimed at the model's decision
+// points: cancel in before / leave / body, error in enter / after, the same for the GO_ERROR fallback)
+func relevantFaults(r *gen.Rand, s string, q reqIn) faults {
+	var f faults
+	var cands []string
+	var bodies []string
+	addEv := func(ev, src string) {
+		cands = append(cands, "before_"+ev, "leave_"+src, "enter_"+evDst[ev], "after_"+ev)
+		if ev != "GO_ERROR" {
+			bodies = append(bodies, ev)
+		}
+	}
+	switch q.Kind {
+	case "control":
+		if ev, ok := opEvent[q.Op]; ok {
+			addEv(ev, s)
+		}
+		addEv("GO_ERROR", s)
+		if ev, ok := opEvent[q.Op]; ok {
+			addEv("GO_ERROR", evDst[ev])
+		}
+	case "destroy":
+		addEv("RESET", s)
+		addEv("STOP_ACTIVITY", s)
+		cands = append(cands, "leave_"+s, "leave_DEPLOYED", "DESTROY")
+	case "teardown":
+		cands = append(cands, "leave_"+s, "DESTROY")
+	case "odc", "stoprun":
+		addEv("STOP_ACTIVITY", s)
+		addEv("GO_ERROR", "CONFIGURED")
+		addEv("GO_ERROR", "RUNNING")
+	}
+	n := 1
+	if r.Chance(1, 4) {
+		n = 2
+	}
+	for i := 0; i < n; i++ {
+		if len(bodies) > 0 && r.Chance(1, 5) {
+			f.Bodies = append(f.Bodies, r.Pick(bodies))
+		} else if len(cands) > 0 {
+			f.Hooks = append(f.Hooks, r.Pick(cands))
+		}
+	}
+	sort.Strings(f.Hooks)
+	f.Hooks = dedup(f.Hooks)
+	f.Bodies = dedup(f.Bodies)
+	return f
+}
+
+func dedup(xs []string) []string {
+	var out []string
+	for i, x := range xs {
+		if i == 0 || xs[i-1] != x {
+			out = append(out, x)
+		}
+	}
+	return out
+}
+
+func genReq(r *gen.Rand, s string, listed bool) reqIn {
+	x := r.Intn(100)
+	switch {
+	case x < 52 && len(legalOps[s]) > 0: // legal operation
+		ops := legalOps[s]
+		return reqIn{Kind: "control", Op: ops[r.Intn(len(ops))]}
+	case x < 74: // any requestable operation, mostly illegal here
+		return reqIn{Kind: "control", Op: []int32{1, 2, 3, 4, 6}[r.Intn(5)]}
+	case x < 79: // operations that are not requestable
+		return reqIn{Kind: "control", Op: []int32{0, 5, 7, 42}[r.Intn(4)]}
+	case x < 84:
+		return reqIn{Kind: "teardown", Force: r.Chance(1, 2)}
+	case x < 90:
+		return reqIn{Kind: "destroy", Force: r.Chance(1, 4), Allow: r.Chance(1, 2), Keep: r.Chance(1, 4)}
+	case x < 95:
+		return reqIn{Kind: "odc"}
+	default:
+		return reqIn{Kind: "stoprun"}
+	}
+}
+
+// generated sequentially against the running implementation: the generator looks at the state the
+// environment is in to aim the next request (the choice is recorded, replay re-issues it as is)
+func (w *world) genSeq(r *gen.Rand, maxLen int) gen.Case {
+	create := "hook"
+	if r.Chance(1, 4) {
+		create = "api"
+	}
+	in := seqIn{Create: create}
+	w.setCur(nil)
+	env, err := w.newEnv(create)
+	if err != nil {
+		panic(err)
+	}
+	w.setCur(env)
+	st0 := env.Sm.Current()
+	var terms []string
+	var obs []stepObs
+	n := r.Range(3, maxLen)
+	afterGone := 0
+	for i := 0; i < n; i++ {
+		s := env.Sm.Current()
+		listed := w.listed(env.Id())
+		q := genReq(r, s, listed)
+		if !listed {
+			afterGone++
+			if afterGone > 2 {
+				break
+			}
+			if q.Kind == "odc" || q.Kind == "stoprun" {
+				q = reqIn{Kind: "control", Op: 1}
+			}
+		}
+		st := stepIn{Req: q}
+		if r.Chance(3, 10) {
+			st.Faults = relevantFaults(r, s, q)
+		}
+		tS := time.Now()
+		t, o := w.runStep(env, st)
+		if os.Getenv("H01_TIMING") != "" {
+			fmt.Fprintf(os.Stderr, "  step %+v -> %s\n", st.Req, time.Since(tS))
+		}
+		in.Steps = append(in.Steps, st)
+		terms = append(terms, t)
+		obs = append(obs, o)
+	}
+	w.setCur(nil)
+	tD := time.Now()
+	w.dispose(env)
+	if os.Getenv("H01_TIMING") != "" {
+		fmt.Fprintf(os.Stderr, "seq create=%s steps=%d dispose=%s\n", create, len(in.Steps), time.Since(tD))
+	}
+	return gen.Case{Term: fmt.Sprintf("CSeq %s %s", stTerm(st0), gen.List(terms)), Kind: "seq-" + create, Input: in, Obs: obs}
+}
+
+// ---------------------------------------------------------------- CFsm
+
+type fsmIn struct {
+	St     string `json:"st"`
+	Ev     string `json:"ev"`
+	Faults faults `json:"faults"`
+}
+
+func (w *world) caseFsm(env *environment.Environment, in fsmIn) gen.Case {
+	w.setCur(env)
+	env.Sm.SetState(in.St)
+	w.setFaults(in.Faults, true)
+	n := w.mark()
+	err := env.TryTransition(environment.VerifC01Transition{Name: in.Ev, Body: func(e *environment.Environment) error {
+		w.add(item{Kind: "B", Name: in.Ev})
+		if w.bodyFails(in.Ev) {
+			return errors.New("injected body failure")
+		}
+		return nil
+	}})
+	items := w.since(n)
+	w.setFaults(in.Faults, false)
+	final := env.Sm.Current()
+	tr, plain := traceTerms(in.St, items, final)
+	w.setCur(nil)
+	return gen.Case{Term: fmt.Sprintf("CFsm %s %s %s %s %s %s", stTerm(in.St), evTerm(in.Ev), oracleTerm(in.Faults),
+		gen.Bool(err != nil), stTerm(final), gen.List(tr)), Kind: "fsm", Input: in,
+		Obs: map[string]interface{}{"err": err != nil, "final": final, "trace": plain}}
+}
+
+func fsmInputs() []fsmIn {
+	var out []fsmIn
+	dstOf := func(ev, st string) string { // only used to aim the enter_ probe; unknown pairs get a default
+		return evDst[ev]
+	}
+	for _, st := range stateNames {
+		for _, ev := range eventNames {
+			d := dstOf(ev, st)
+			if ev == "EXIT" {
+				d = "DONE"
+			}
+			if ev == "RECOVER" {
+				d = "DEPLOYED"
+			}
+			out = append(out, fsmIn{St: st, Ev: ev})
+			out = append(out, fsmIn{St: st, Ev: ev, Faults: faults{Hooks: []string{"before_" + ev}}})
+			out = append(out, fsmIn{St: st, Ev: ev, Faults: faults{Hooks: []string{"leave_" + st}}})
+			out = append(out, fsmIn{St: st, Ev: ev, Faults: faults{Bodies: []string{ev}}})
+			out = append(out, fsmIn{St: st, Ev: ev, Faults: faults{Hooks: []string{"enter_" + d}}})
+			out = append(out, fsmIn{St: st, Ev: ev, Faults: faults{Hooks: []string{"after_" + ev}}})
+		}
+	}
+	return out
+}
+
+// ---------------------------------------------------------------- CConc
+
+type concIn struct {
+	Scenario string   `json:"scenario,omitempty"` // "" generated | "stale" | "force-race"
+	Pre      []int32  `json:"pre"`                // control operations that bring the environment to the start state
+	Holder   reqIn    `json:"holder"`
+	Gate     string   `json:"gate"` // trigger whose probe blocks the holder
+	Callers  []reqIn  `json:"callers"`
+	Faults   faults   `json:"faults"`
+}
+
+type thrObs struct {
+	Code  uint64 `json:"code"`
+	Reply string `json:"reply,omitempty"`
+	Has   bool   `json:"has_reply"`
+}
+
+func logTerms(prev string, items []item, final string) ([]string, []string) {
+	var out, plain []string
+	cur := prev
+	lastB := ""
+	for _, it := range items {
+		if it.St != "" && it.St != cur {
+			cur = it.St
+			out = append(out, "LI (SetSt "+stTerm(cur)+")")
+			plain = append(plain, "S:"+cur)
+			lastB = ""
+		}
+		switch it.Kind {
+		case "H":
+			out = append(out, "LI (Hook "+momentTerm(it.Name)+")")
+			plain = append(plain, "H:"+it.Name)
+			lastB = ""
+		case "B":
+			if it.Name != lastB {
+				out = append(out, "LI (Body "+evTerm(it.Name)+")")
+				plain = append(plain, "B:"+it.Name)
+			}
+			lastB = it.Name
+		case "E":
+			st := it.St
+			if st == "" {
+				st = cur
+			}
+			out = append(out, fmt.Sprintf("LE %d %s %s", evKind(it.Name), stTerm(st), stTerm(it.RepSt)))
+			if k := evKind(it.Name); k != 0 {
+				plain = append(plain, fmt.Sprintf("E%d:%s@%d", k, it.Trans, it.Th))
+			}
+		}
+	}
+	if final != cur {
+		out = append(out, "LI (SetSt "+stTerm(final)+")")
+		plain = append(plain, "S:"+final)
+	}
+	return out, plain
+}
+
+func (w *world) prepare(pre []int32) *environment.Environment {
+	w.setCur(nil)
+	env, err := w.newListed()
+	if err != nil {
+		panic(err)
+	}
+	for _, op := range pre {
+		w.control(env.Id().String(), op, "pre")
+	}
+	return env
+}
+
+func thrTerm(q reqIn, o thrObs) string {
+	return fmt.Sprintf("(%s, %d, %s)", reqTerm(q), o.Code, optSt(o.Has, o.Reply))
+}
+
+func (w *world) caseConc(in concIn) gen.Case {
+	switch in.Scenario {
+	case "stale":
+		return w.caseStale(in)
+	case "force-race", "force-deadlock":
+		return w.caseForceRace(in)
+	}
+	env := w.prepare(in.Pre)
+	w.setCur(env)
+	w.clearThreads()
+	st0 := env.Sm.Current()
+	w.setFaults(in.Faults, true)
+	w.rec.Reset()
+	w.rec.Gate(in.Gate)
+	n := w.mark()
+	results := make([]thrObs, 1+len(in.Callers))
+	done := make(chan int, 1+len(in.Callers))
+	var holderBack atomic.Bool
+	launch := func(idx int, q reqIn) {
+		go func() {
+			w.regThread(idx)
+			r := w.issue(env, q, fmt.Sprintf("caller-%d", idx))
+			results[idx] = thrObs{Code: codeOf(r.Err), Reply: r.State, Has: r.HasReply}
+			w.addReply(r)
+			if idx == 0 {
+				holderBack.Store(true)
+			}
+			done <- idx
+		}()
+	}
+	launch(0, in.Holder)
+	// the holder either blocks in the gated probe or (a fault cancelled it earlier) comes back
+	waitFor(2*time.Second, func() bool { return w.rec.Started(in.Gate) || holderBack.Load() })
+	gated := w.rec.Started(in.Gate)
+	for i, q := range in.Callers {
+		launch(i+1, q)
+		user := fmt.Sprintf("caller-%d", i+1)
+		if q.Kind == "control" || q.Kind == "destroy" {
+			waitFor(time.Second, func() bool { return env.GetLastRequestUser().GetName() == user })
+		}
+		time.Sleep(2 * time.Millisecond) // lookup done, now queued on the transition mutex (or finished)
+	}
+	w.rec.Release(in.Gate)
+	hung := false
+	for i := 0; i < 1+len(in.Callers) && !hung; i++ {
+		select {
+		case <-done:
+		case <-time.After(hangTimeout):
+			hung = true
+		}
+	}
+	if hung {
+		return w.hungCase(env, in, n, "conc-hung")
+	}
+	items := w.since(n)
+	w.setFaults(in.Faults, false)
+	final := env.Sm.Current()
+	listed := w.listed(env.Id())
+	w.setCur(nil)
+	w.dispose(env)
+	// the order of the locked sections, by the goroutine that wrote the opening event
+	var macro []uint64
+	for _, it := range items {
+		if it.Kind == "E" && evKind(it.Name) == 1 && it.Th >= 0 {
+			macro = append(macro, uint64(it.Th))
+		}
+	}
+	lt, plain := logTerms(st0, items, final)
+	reqs := append([]reqIn{in.Holder}, in.Callers...)
+	var ths []string
+	for i, q := range reqs {
+		ths = append(ths, thrTerm(q, results[i]))
+	}
+	kind := "conc"
+	if !gated {
+		kind = "conc-ungated"
+	}
+	return gen.Case{Term: fmt.Sprintf("CConc %s %s %s %s [] %s %s %s", stTerm(st0), oracleTerm(in.Faults), gen.List(ths),
+		gen.NList(macro), gen.List(lt), stTerm(final), gen.Bool(listed)), Kind: kind, Input: in,
+		Obs: map[string]interface{}{"results": results, "log": plain, "final": final, "listed": listed, "sections": macro}}
+}
+
+const hangTimeout = 1500 * time.Millisecond
+
+// hungCase records an episode whose requests never returned.  The environment is left as it is
+// (its goroutines are blocked for good); nothing of it is reused.
+func (w *world) hungCase(env *environment.Environment, in concIn, from int, kind string) gen.Case {
+	if os.Getenv("H01_DUMP") != "" {
+		pprof.Lookup("goroutine").WriteTo(os.Stderr, 1)
+	}
+	items := w.since(from)
+	w.setFaults(in.Faults, false)
+	w.setNoSample(false)
+	w.setCur(nil)
+	st0 := "STANDBY"
+	_, plain := logTerms(st0, items, st0)
+	reqs := append([]reqIn{in.Holder}, in.Callers...)
+	var qs []string
+	for _, q := range reqs {
+		qs = append(qs, reqTerm(q))
+	}
+	return gen.Case{Term: fmt.Sprintf("CHung %s %s", oracleTerm(in.Faults), gen.List(qs)), Kind: kind, Input: in,
+		Obs: map[string]interface{}{"hung": true, "log": plain, "sampled_state": sampleState(env)}}
+}
+
+func (w *world) addReply(r reply) {
+	if r.HasReply {
+		w.add(item{Kind: "E", Name: "reply", RepSt: r.State})
+	}
+}
+
+func waitFor(d time.Duration, cond func() bool) bool {
+	t0 := time.Now()
+	for !cond() {
+		if time.Since(t0) > d {
+			return false
+		}
+		time.Sleep(200 * time.Microsecond)
+	}
+	return true
+}
+
+// Stale handle: ControlEnvironment looks the environment up while a teardown holds the
+// transition mutex (blocked in its leave hook), and executes after the teardown has set DONE
+// and unlisted the environment.
+func (w *world) caseStale(in concIn) gen.Case {
+	env := w.prepare(in.Pre)
+	w.setCur(env)
+	w.clearThreads()
+	st0 := env.Sm.Current()
+	w.rec.Reset()
+	w.rec.Gate(in.Gate)
+	n := w.mark()
+	results := make([]thrObs, 2)
+	done := make(chan int, 2)
+	go func() {
+		w.regThread(0)
+		r := w.issue(env, in.Holder, "destroyer")
+		results[0] = thrObs{Code: codeOf(r.Err), Reply: r.State, Has: r.HasReply}
+		w.addReply(r)
+		done <- 0
+	}()
+	waitFor(2*time.Second, func() bool { return w.rec.Started(in.Gate) })
+	go func() {
+		w.regThread(1)
+		r := w.issue(env, in.Callers[0], "stale-caller")
+		results[1] = thrObs{Code: codeOf(r.Err), Reply: r.State, Has: r.HasReply}
+		w.addReply(r)
+		done <- 1
+	}()
+	waitFor(time.Second, func() bool { return env.GetLastRequestUser().GetName() == "stale-caller" })
+	time.Sleep(3 * time.Millisecond)
+	w.rec.Release(in.Gate)
+	<-done
+	<-done
+	items := w.since(n)
+	final := env.Sm.Current()
+	listed := w.listed(env.Id())
+	w.setCur(nil)
+	w.dispose(env)
+	lt, plain := logTerms(st0, items, final)
+	ths := []string{thrTerm(in.Holder, results[0]), thrTerm(in.Callers[0], results[1])}
+	// explicit schedule: both lookups, the whole teardown (second lookup of doTeardownAndCleanup,
+	// begin, commit, end), then the stale caller to its end
+	micro := []uint64{0, 1, 0, 0, 0, 0, 1, 1, 1, 1, 1, 1, 1, 1, 1, 1}
+	return gen.Case{Term: fmt.Sprintf("CConc %s %s %s [] %s %s %s %s", stTerm(st0), oracleTerm(in.Faults), gen.List(ths),
+		gen.NList(micro), gen.List(lt), stTerm(final), gen.Bool(listed)), Kind: "conc-stale", Input: in,
+		Obs: map[string]interface{}{"results": results, "log": plain, "final": final, "listed": listed}}
+}
+
+// logrus hook used as a scheduler control point: blocks the goroutine that logs a given message
+type logGate struct {
+	substr string
+	seen   chan struct{}
+	gate   chan struct{}
+	fired  bool
+}
+
+func (g *logGate) Levels() []logrus.Level { return logrus.AllLevels }
+func (g *logGate) Fire(e *logrus.Entry) error {
+	if !g.fired && strings.Contains(e.Message, g.substr) {
+		g.fired = true
+		close(g.seen)
+		<-g.gate
+	}
+	return nil
+}
+
+// Forced state outside the transition mutex: caller A's request is illegal and its GO_ERROR
+// fallback is cancelled by a failing before_GO_ERROR hook; A is stopped (log hook) just before
+// its unlocked Sm.SetState("ERROR"); caller B's legal transition starts and is stopped inside
+// its task command; A is released (its SetState waits for B's event to let go of the FSM's own
+// lock), then B.
+func (w *world) caseForceRace(in concIn) gen.Case {
+	env := w.prepare(in.Pre)
+	w.setCur(env)
+	w.clearThreads()
+	st0 := env.Sm.Current()
+	w.setFaults(in.Faults, true)
+	w.rec.Reset()
+	lg := &logGate{substr: "forcing move to ERROR", seen: make(chan struct{}), gate: make(chan struct{})}
+	oldLevel := logrus.GetLevel()
+	logrus.SetLevel(logrus.WarnLevel)
+	oldHooks := logrus.StandardLogger().ReplaceHooks(logrus.LevelHooks{})
+	logrus.AddHook(lg)
+	n := w.mark()
+	results := make([]thrObs, 2)
+	done := make(chan int, 2)
+	go func() {
+		w.regThread(0)
+		r := w.issue(env, in.Holder, "caller-A")
+		results[0] = thrObs{Code: codeOf(r.Err), Reply: r.State, Has: r.HasReply}
+		w.addReply(r)
+		done <- 0
+	}()
+	select {
+	case <-lg.seen:
+	case <-time.After(3 * time.Second):
+		fmt.Fprintln(os.Stderr, "h01: force-race: caller A never reached the forced state")
+		os.Exit(5)
+	}
+	deadlock := in.Scenario == "force-deadlock"
+	restore := func() {
+		logrus.StandardLogger().ReplaceHooks(oldHooks)
+		logrus.SetLevel(oldLevel)
+	}
+	if deadlock {
+		// B: legal transition, stopped inside its before_<event> hook: when it goes on, its own
+		// callback asks the FSM for the current state while A's SetState waits for the write lock
+		w.rec.Gate(in.Gate)
+		go func() {
+			w.regThread(1)
+			r := w.issue(env, in.Callers[0], "caller-B")
+			results[1] = thrObs{Code: codeOf(r.Err), Reply: r.State, Has: r.HasReply}
+			w.addReply(r)
+			done <- 1
+		}()
+		waitFor(2*time.Second, func() bool { return w.rec.Started(in.Gate) })
+		close(lg.gate) // A: Sm.SetState("ERROR") now waits behind B's event
+		time.Sleep(5 * time.Millisecond)
+		w.rec.Release(in.Gate)
+		hung := false
+		for i := 0; i < 2 && !hung; i++ {
+			select {
+			case <-done:
+			case <-time.After(hangTimeout):
+				hung = true
+			}
+		}
+		if hung {
+			restore()
+			return w.hungCase(env, in, n, "conc-force-deadlock")
+		}
+	} else {
+		// B: legal transition, stopped inside its task command
+		w.mu.Lock()
+		w.cmdGate, w.cmdSeen = make(chan struct{}), make(chan struct{})
+		cg, cs := w.cmdGate, w.cmdSeen
+		w.mu.Unlock()
+		go func() {
+			w.regThread(1)
+			r := w.issue(env, in.Callers[0], "caller-B")
+			results[1] = thrObs{Code: codeOf(r.Err), Reply: r.State, Has: r.HasReply}
+			w.addReply(r)
+			done <- 1
+		}()
+		<-cs
+		w.setNoSample(true) // from here on a writer may be pending on the FSM's lock
+		close(lg.gate)      // A: Sm.SetState("ERROR") (waits for B's event to release the FSM read lock)
+		time.Sleep(5 * time.Millisecond)
+		close(cg) // B: task command answered, event goes on
+		<-done
+		<-done
+	}
+	w.setNoSample(false)
+	restore()
+	items := w.since(n)
+	w.setFaults(in.Faults, false)
+	final := env.Sm.Current()
+	listed := w.listed(env.Id())
+	w.setCur(nil)
+	w.dispose(env)
+	lt, plain := logTerms(st0, items, final)
+	ths := []string{thrTerm(in.Holder, results[0]), thrTerm(in.Callers[0], results[1])}
+	return gen.Case{Term: fmt.Sprintf("CConc %s %s %s [] %s %s %s %s", stTerm(st0), oracleTerm(in.Faults), gen.List(ths),
+		gen.NList(in.microHint()), gen.List(lt), stTerm(final), gen.Bool(listed)), Kind: "conc-force-race", Input: in,
+		Obs: map[string]interface{}{"results": results, "log": plain, "final": final, "listed": listed}}
+}
+
+func (in concIn) microHint() []uint64 {
+	// A: lookup, illegal op (3 steps), GO_ERROR cancelled (3 steps); B: lookup, begin;
+	// A: force, read; B: commit, end, read
+	return []uint64{0, 0, 0, 0, 0, 0, 0, 1, 1, 0, 0, 1, 1, 1}
+}
+
+var gatesFor = map[string][]string{}
+
+func (w *world) genConc(r *gen.Rand) concIn {
+	// start state and how to get there
+	starts := []struct {
+		pre []int32
+		st  string
+	}{
+		{nil, "STANDBY"}, {[]int32{6}, "DEPLOYED"}, {[]int32{6, 3}, "CONFIGURED"}, {[]int32{6, 3, 1}, "RUNNING"},
+		{[]int32{6, 3}, "CONFIGURED"}, {[]int32{6}, "DEPLOYED"},
+	}
+	s := starts[r.Intn(len(starts))]
+	in := concIn{Pre: s.pre}
+	// holder: a legal transition or a teardown, gated at one of its moments
+	if r.Chance(1, 4) {
+		in.Holder = reqIn{Kind: "teardown", Force: true}
+		in.Gate = r.Pick([]string{"leave_" + s.st, "DESTROY"})
+	} else {
+		op := legalOps[s.st][r.Intn(len(legalOps[s.st]))]
+		ev := opEvent[op]
+		in.Holder = reqIn{Kind: "control", Op: op}
+		in.Gate = r.Pick([]string{"before_" + ev, "leave_" + s.st, "enter_" + evDst[ev], "after_" + ev})
+	}
+	k := r.Range(1, 3)
+	for i := 0; i < k; i++ {
+		x := r.Intn(10)
+		switch {
+		case x < 7:
+			in.Callers = append(in.Callers, reqIn{Kind: "control", Op: []int32{1, 2, 3, 4, 6}[r.Intn(5)]})
+		case x < 8:
+			in.Callers = append(in.Callers, reqIn{Kind: "control", Op: []int32{0, 5}[r.Intn(2)]})
+		case x < 9:
+			in.Callers = append(in.Callers, reqIn{Kind: "teardown", Force: r.Chance(1, 2)})
+		default:
+			in.Callers = append(in.Callers, reqIn{Kind: "destroy", Force: r.Chance(1, 2), Allow: r.Chance(1, 2)})
+		}
+	}
+	if r.Chance(1, 4) {
+		f := relevantFaults(r, s.st, in.Callers[0])
+		// the gated probe must not be a failing one that is then skipped: keep it as is
+		in.Faults = f
+	}
+	return in
+}
+
+// ---------------------------------------------------------------- -gen: exhaustive tables
+
+func genTables(out string) {
+	w, err := newWorld("gen")
+	if err != nil {
+		fmt.Fprintln(os.Stderr, "h01 -gen:", err)
 		os.Exit(1)
 	}
 	env, err := w.newListed()
 	if err != nil {
-		fmt.Println("ERR", err)
+		fmt.Fprintln(os.Stderr, "h01 -gen:", err)
 		os.Exit(1)
 	}
-	w.setCur(env)
-	id := env.Id().String()
-	step := func(name string, f func() reply) {
-		n := w.mark()
-		t0 := time.Now()
-		r := f()
-		fmt.Printf("== %s -> %+v state=%s listed=%v (%s)\n", name, r, env.CurrentState(), w.listed(env.Id()), time.Since(t0))
-		dump(w.since(n))
-	}
-	step("DEPLOY", func() reply { return w.control(id, 6, "u") })
-	which := os.Args[2]
-	switch which {
-	case "before", "leave", "enter", "after":
-		tr := map[string]string{"before": "before_CONFIGURE", "leave": "leave_DEPLOYED", "enter": "enter_CONFIGURED", "after": "after_CONFIGURE"}[which]
-		w.rec.SetFail(tr, true)
-		step("CONFIGURE failing at "+tr, func() reply { return w.control(id, 3, "u") })
-		w.rec.SetFail(tr, false)
-	case "body":
-		w.setFailBody([]string{"CONFIGURE"})
-		step("CONFIGURE failing body", func() reply { return w.control(id, 3, "u") })
-		w.setFailBody(nil)
-	case "goerr":
-		w.rec.SetFail("before_GO_ERROR", true)
-		step("START illegal, GO_ERROR failing before", func() reply { return w.control(id, 1, "u") })
-		w.rec.SetFail("before_GO_ERROR", false)
-	case "goerr2":
-		w.rec.SetFail("enter_ERROR", true)
-		step("START illegal, GO_ERROR failing enter", func() reply { return w.control(id, 1, "u") })
-		w.rec.SetFail("enter_ERROR", false)
-	case "stale":
-		step("CONFIGURE", func() reply { return w.control(id, 3, "u") })
-		w.rec.Gate("leave_CONFIGURED")
-		done := make(chan reply, 2)
-		go func() { done <- w.destroy(id, true, false, false, "destroyer") }()
-		for !w.rec.Started("leave_CONFIGURED") {
-			time.Sleep(time.Millisecond)
+	var b strings.Builder
+	b.WriteString("(* regenerated on every run by `h01 -gen`: FSM.Can and the outcome of firing every event in every\n   state (all hooks and the body succeeding) on the FSM of a real Environment *)\n")
+	b.WriteString("From Verif Require Import Common EnvFsmTypes.\nOpen Scope N_scope.\n\n")
+	b.WriteString("Definition env_can_table : list (estate * eevent * bool) := [\n")
+	var rows []string
+	for _, st := range stateNames {
+		for _, ev := range eventNames {
+			env.Sm.SetState(st)
+			rows = append(rows, fmt.Sprintf("  (%s, %s, %s)", stTerm(st), evTerm(ev), gen.Bool(env.Sm.Can(ev))))
 		}
-		fmt.Println("teardown blocked in leave_CONFIGURED; transition:", env.CurrentTransition())
-		done2 := make(chan reply, 2)
-		go func() { done2 <- w.control(id, 1, "stale-caller") }()
-		for env.GetLastRequestUser().GetName() != "stale-caller" {
-			time.Sleep(time.Millisecond)
-		}
-		time.Sleep(5 * time.Millisecond)
-		n := w.mark()
-		w.rec.Release("leave_CONFIGURED")
-		fmt.Printf("destroy -> %+v\n", <-done)
-		fmt.Printf("control -> %+v  state=%s listed=%v\n", <-done2, env.CurrentState(), w.listed(env.Id()))
-		dump(w.since(n))
 	}
-	step("destroy", func() reply { return w.destroy(id, false, false, false, "u") })
+	b.WriteString(strings.Join(rows, ";\n") + "\n].\n\n")
+	b.WriteString("(* (state, event, state afterwards, TryTransition returned an error) *)\n")
+	b.WriteString("Definition env_fire_table : list (estate * eevent * estate * bool) := [\n")
+	rows = nil
+	for _, st := range stateNames {
+		for _, ev := range eventNames {
+			env.Sm.SetState(st)
+			e := env.TryTransition(environment.VerifC01Transition{Name: ev})
+			rows = append(rows, fmt.Sprintf("  (%s, %s, %s, %s)", stTerm(st), evTerm(ev), stTerm(env.Sm.Current()), gen.Bool(e != nil)))
+		}
+	}
+	b.WriteString(strings.Join(rows, ";\n") + "\n].\n\n")
+	// event names of the transitions the package constructs, from the running code
+	names := environment.VerifC01TransitionNames(w.sim.Taskman)
+	var nn []string
+	for _, n := range names {
+		nn = append(nn, evTerm(n))
+	}
+	fmt.Fprintf(&b, "Definition env_ctor_names : list eevent := %s.\n", gen.List(nn))
+	// MakeTransition on every optype of the enum and one number outside it
+	var mm []string
+	for op := int32(0); op <= 7; op++ {
+		n := environment.VerifC01MakeTransitionName(environment.MakeTransition(w.sim.Taskman, pbOptype(op)))
+		v := "None"
+		if n != "" {
+			v = "Some " + evTerm(n)
+		}
+		mm = append(mm, fmt.Sprintf("(%s, %s)", opTerm(op), v))
+	}
+	fmt.Fprintf(&b, "Definition env_make_table : list (optype * option eevent) := %s.\n", gen.List(mm))
+	env.Sm.SetState("STANDBY")
 	w.dispose(env)
+	old, err := os.ReadFile(out)
+	if err == nil && string(old) == b.String() {
+		return
+	}
+	if err := os.WriteFile(out, []byte(b.String()), 0o644); err != nil {
+		fmt.Fprintln(os.Stderr, "h01 -gen:", err)
+		os.Exit(1)
+	}
+}
+
+// ---------------------------------------------------------------- main
+
+type anyIn struct {
+	Seq  *seqIn  `json:"seq,omitempty"`
+	Fsm  *fsmIn  `json:"fsm,omitempty"`
+	Conc *concIn `json:"conc,omitempty"`
 }
 
 func main() {
+	if len(os.Args) >= 3 && os.Args[1] == "-gen" {
+		genTables(os.Args[2])
+		return
+	}
 	if len(os.Args) >= 2 && os.Args[1] == "-explore" {
 		explore()
 		return
 	}
+	o := gen.ParseFlags()
+	if pf := os.Getenv("H01_PROF"); pf != "" {
+		f, _ := os.Create(pf)
+		pprof.StartCPUProfile(f)
+		defer pprof.StopCPUProfile()
+	}
+	w, err := newWorld("")
+	if err != nil {
+		fmt.Fprintln(os.Stderr, "h01:", err)
+		os.Exit(1)
+	}
+	var cases []gen.Case
+	wrap := func(c gen.Case) gen.Case {
+		switch v := c.Input.(type) {
+		case seqIn:
+			c.Input = anyIn{Seq: &v}
+		case fsmIn:
+			c.Input = anyIn{Fsm: &v}
+		case concIn:
+			c.Input = anyIn{Conc: &v}
+		}
+		return c
+	}
+	fsmEnv := func() *environment.Environment {
+		env, err := w.newListed()
+		if err != nil {
+			panic(err)
+		}
+		return env
+	}
+	t0 := time.Now()
+	phases := map[string]float64{}
+	if o.Replay != "" {
+		ins, _, err := gen.LoadReplay(o.Replay)
+		if err != nil {
+			panic(err)
+		}
+		var fe *environment.Environment
+		for _, raw := range ins {
+			var in anyIn
+			if err := json.Unmarshal(raw, &in); err != nil {
+				panic(err)
+			}
+			switch {
+			case in.Seq != nil:
+				cases = append(cases, wrap(w.caseSeq(*in.Seq)))
+			case in.Fsm != nil:
+				if fe == nil {
+					fe = fsmEnv()
+				}
+				cases = append(cases, wrap(w.caseFsm(fe, *in.Fsm)))
+			case in.Conc != nil:
+				cases = append(cases, wrap(w.caseConc(*in.Conc)))
+			}
+		}
+		if fe != nil {
+			fe.Sm.SetState("STANDBY")
+			w.dispose(fe)
+		}
+	} else {
+		r := gen.NewRand(o.Seed)
+		rSeq, rConc := r.Fork(), r.Fork()
+		// 0. the recorded witnesses first
+		cases = append(cases, wrap(w.caseConc(concIn{Scenario: "stale", Pre: []int32{6, 3},
+			Holder: reqIn{Kind: "destroy", Force: true}, Gate: "leave_CONFIGURED",
+			Callers: []reqIn{{Kind: "control", Op: 1}}})))
+		cases = append(cases, wrap(w.caseConc(concIn{Scenario: "force-race", Pre: []int32{6},
+			Holder: reqIn{Kind: "control", Op: 1}, Callers: []reqIn{{Kind: "control", Op: 3}},
+			Faults: faults{Hooks: []string{"before_GO_ERROR"}}})))
+		cases = append(cases, wrap(w.caseConc(concIn{Scenario: "force-deadlock", Pre: []int32{6},
+			Holder: reqIn{Kind: "control", Op: 1}, Callers: []reqIn{{Kind: "control", Op: 3}}, Gate: "before_CONFIGURE",
+			Faults: faults{Hooks: []string{"before_GO_ERROR"}}})))
+		tPhase := time.Now()
+		// 1. exhaustive single events on a real Environment (6 states x 8 events x 6 outcomes)
+		fe := fsmEnv()
+		for _, in := range fsmInputs() {
+			cases = append(cases, wrap(w.caseFsm(fe, in)))
+		}
+		fe.Sm.SetState("STANDBY")
+		w.dispose(fe)
+		phases["fsm_s"] = time.Since(tPhase).Seconds()
+		tPhase = time.Now()
+		// 2. sequential histories through the API, 3. concurrent episodes
+		maxLen := 12
+		if o.Tier == "thorough" {
+			maxLen = 40
+		}
+		nConc := o.N / 4
+		nSeq := o.N - nConc
+		for i := 0; i < nSeq; i++ {
+			cases = append(cases, wrap(w.genSeq(rSeq, maxLen)))
+		}
+		phases["seq_s"] = time.Since(tPhase).Seconds()
+		tPhase = time.Now()
+		for i := 0; i < nConc; i++ {
+			cases = append(cases, wrap(w.caseConc(w.genConc(rConc))))
+		}
+		phases["conc_s"] = time.Since(tPhase).Seconds()
+	}
+	extra := map[string]any{"harness_wall_s": time.Since(t0).Seconds(), "phases": phases}
+	if err := gen.WriteCases(o, "C01", "From Verif Require Import EnvFsm.", "c01_case", "report01", cases, extra); err != nil {
+		fmt.Fprintln(os.Stderr, "h01:", err)
+		os.Exit(1)
+	}
+	_ = context.Background
 }
